@@ -111,6 +111,8 @@ impl From<&[u8; 2]> for Wbs { fn from(v: &[u8; 2]) -> Self { Wbs(v[0] ^ v[1]) } 
 LITS = [
     ('5', 'u8', '5u8'), ('5', 'i64', '5i64'), ('5', 'Wi', 'Wi(1005)'), ('5u16', 'u16', '5u16'), ('5u16', 'Wi', 'Wi(2005)'), ('5u16', 'u32', '5u32'),
     ('1.5', 'f64', '1.5f64'), ('1.5', 'f32', '1.5f32'), ('1.5', 'Wf', 'Wf(2.0)'), ('1.5f32', 'f64', '1.5f64'),
+    # a suffixed literal keeps its own precision: 0.1f32 widened is not 0.1f64
+    ('0.1f32', 'f64', '(0.1f32 as f64)'), ('16777217.0f32', 'f64', '16777216.0f64'), ('0.1f32', 'f32', '0.1f32'),
     ('"hi"', "&'static str", '"hi"'), ('"hi"', 'Ws', 'Ws(2, 104)'),
     ('true', 'bool', 'true'), ('true', 'Wb', 'Wb(7)'), ('false', 'bool', 'false'), ('false', 'Wb', 'Wb(9)'), ('false', 'Option<bool>', 'Some(false)'), ('0', 'Wi', 'Wi(1000)'), ('""', 'Ws0', 'Ws0(77)'),
     ("'c'", 'char', "'c'"), ("'c'", 'u32', '99u32'),
@@ -146,7 +148,7 @@ def literal_modules(start, tier):
     assert!(got == want, "literal default not routed as `natural type: verbatim, otherwise Into`");
 }}
 '''
-            cls = ['c08:suffixed-literal-other-numeric-type'] if (lit, ty) in (('5u16', 'u32'), ('1.5f32', 'f64')) else []
+            cls = ['c08:suffixed-literal-other-numeric-type'] if (lit, ty) in (('5u16', 'u32'), ('1.5f32', 'f64'), ('0.1f32', 'f64'), ('16777217.0f32', 'f64')) else []
             mods.append(Module(f'm{n:04d}', f'literal {lit} -> {ty} via `Default{form.format(lit)}` shape{shape}', body, [h],
                                sample=dict(type_definition=decl), functions=FUNCTIONS, classes=cls))
             n += 1
